@@ -1388,6 +1388,7 @@ impl Compiler {
                 &instance_private_methods,
                 class_brand,
                 class_name.clone(),
+                has_super,
             )?
         } else {
             self.compile_default_constructor(
@@ -2017,6 +2018,7 @@ impl Compiler {
         instance_private_methods: &[&ClassMethod],
         class_brand: u32,
         name: Option<JsString>,
+        has_super: bool,
     ) -> Result<super::BytecodeChunk, JsError> {
         use super::FunctionInfo;
 
@@ -2121,6 +2123,26 @@ impl Compiler {
             }
         }
 
+        // In a derived class `this` is initialised by super(): parameter properties and field
+        // initialisers run right after the root-level `super(...)` statement, not at entry
+        let super_stmt = if has_super {
+            ctor.body.body.iter().position(|stmt| {
+                matches!(stmt, Statement::Expression(e)
+                    if matches!(e.expression.as_ref(), crate::ast::Expression::Call(c)
+                        if matches!(c.callee.as_ref(), crate::ast::Expression::Super(_))))
+            })
+        } else {
+            None
+        };
+        let prologue_len = super_stmt.map(|i| i + 1).unwrap_or(0);
+
+        // Hoist var declarations in constructor body
+        func_compiler.emit_hoisted_declarations(&ctor.body.body)?;
+
+        for stmt in ctor.body.body.iter().take(prologue_len) {
+            func_compiler.compile_statement_impl(stmt)?;
+        }
+
         // Emit parameter property assignments: this.x = x
         // These happen before instance field initializers
         for (prop_name, value_reg, needs_free) in &param_properties {
@@ -2139,8 +2161,8 @@ impl Compiler {
             }
         }
 
-        // Compile instance field initializers at the start of constructor
-        // These run before the user's constructor body (after super() call if extending)
+        // Compile instance field initializers
+        // These run before the rest of the user's constructor body
         for field in instance_fields {
             func_compiler.compile_instance_field_initializer(field)?;
         }
@@ -2155,11 +2177,8 @@ impl Compiler {
             func_compiler.compile_instance_private_method_initializer(method, class_brand)?;
         }
 
-        // Hoist var declarations in constructor body
-        func_compiler.emit_hoisted_declarations(&ctor.body.body)?;
-
-        // Compile constructor body
-        for stmt in ctor.body.body.iter() {
+        // Compile the rest of the constructor body
+        for stmt in ctor.body.body.iter().skip(prologue_len) {
             func_compiler.compile_statement_impl(stmt)?;
         }
 
